@@ -164,7 +164,7 @@ Inductive op :=
    discriminated fields: (site, its sub-input) in field order; the first failing field raises. *)
 
 (* what `cls.from_dict(value)` of a class WITHOUT class-level discriminator does *)
-Inductive verdict := VAccept | VReject | VKeyError.
+Inductive verdict := VAccept | VReject | VKeyError | VAttrError.   (* ... or leaks an AttributeError *)
 
 Inductive outcome :=
 | OInst (c: nat)
@@ -175,7 +175,8 @@ Inductive outcome :=
 | OKeyErr (c: nat)         (* a KeyError leaving class c's from_dict surfaces (swallowed only by a no-field loop) *)
 | OMany (cs: list nat)     (* all fields of a DecodeSeq succeeded *)
 | ONotDict                 (* ValueError "Argument for ... discriminated by ... should be a dict instance" *)
-| OCrash.                  (* TypeError from compiling NoneType during a refill (the registry is filled nevertheless) *)
+| OCrash
+| OAttrErr (c: nat).       (* an AttributeError leaving class c's from_dict surfaces (the variant is called outside the guarded lookup) *)                  (* TypeError from compiling NoneType during a refill (the registry is filled nevertheless) *)
 
 Definition st0 : st := St [] [].
 
@@ -194,6 +195,7 @@ Section Step.
     | VAccept => OInst c
     | VReject => ORej c
     | VKeyError => OKeyErr c
+    | VAttrError => OAttrErr c
     end.
 
   (* `variant.from_dict(value)` ENTERS a class: a class that declares its own class-level discriminator is a
@@ -306,8 +308,10 @@ Definition defs (ops: list op) : list cls :=
 (* concrete acceptance used by the correspondence: the hook raises KeyError on the marker field, else every
    required field must be present *)
 Definition kerr_marker : nat := 999.
+Definition aerr_marker : nat := 998.
 Definition acc_req (k: cls) (present: list nat) : verdict :=
   if c_kerr k && memb kerr_marker present then VKeyError
+  else if c_kerr k && memb aerr_marker present then VAttrError
   else if forallb (fun f => memb f present) (c_req k) then VAccept else VReject.
 
 (* computable domain predicate: at most one eligible class carries tag t *)
@@ -326,7 +330,7 @@ Fixpoint list_eqb {A} (e: A -> A -> bool) (a b: list A) : bool :=
 
 Definition outcome_eqb (a b: outcome) : bool :=
   match a, b with
-  | OInst x, OInst y | ORej x, ORej y | OKeyErr x, OKeyErr y => Nat.eqb x y
+  | OInst x, OInst y | ORej x, ORej y | OKeyErr x, OKeyErr y | OAttrErr x, OAttrErr y => Nat.eqb x y
   | OMissing, OMissing | ONotFound, ONotFound | OBadSite, OBadSite => true
   | OMany x, OMany y => list_eqb Nat.eqb x y
   | ONotDict, ONotDict | OCrash, OCrash => true
